@@ -55,6 +55,12 @@ def changes():
         name = "tmp6/" + d.split("/")[-2] + "-" + d.split("/")[-1]
         if os.path.exists(p) and not os.path.exists(os.path.join(VERIF, "seeded", "r6-" + d.split("/")[-2] + "-" + d.split("/")[-1])):
             out.append((name, p, "mutant"))
+    for d in sorted(glob.glob("/tmp/mut7m/C*/[AB]")):
+        p = os.path.join(d, "patch.diff")
+        name = "tmp7/" + d.split("/")[-2] + "-" + d.split("/")[-1]
+        if os.path.exists(p) and os.path.exists(os.path.join(d, "confirm.json")) and \
+                not os.path.exists(os.path.join(VERIF, "seeded", "r7-" + d.split("/")[-2] + "-" + d.split("/")[-1])):
+            out.append((name, p, "mutant"))
     for d in sorted(glob.glob("/tmp/mut2/R*/N*")):
         p = os.path.join(d, "patch.diff")
         name = "tmpbenign/" + d.split("/")[-2] + "-" + d.split("/")[-1]
